@@ -75,6 +75,9 @@ Proof.
   split; unfold get_block in *; rewrite ?E1, ?E2, ?E3, ?E4; assumption.
 Qed.
 
+Definition tip_id (l : list blk) : N := match l with [] => 0 | t :: _ => b_id t end.
+Definition tip_hash (l : list blk) : N := match l with [] => 0 | t :: _ => b_hash t end.
+
 Section Wind.
   Variables (c : cfg) (U : list blk).
   Hypothesis HU : univ_ok c U.
@@ -233,15 +236,46 @@ Section Wind.
     destruct (N.leb_spec (b_id b) (last_id st)); cbn [last_id]; lia.
   Qed.
 
+  (* where last_id / last_hash can come from after winding the blocks Wd *)
+  Definition last_from (st st' : state) (Wd : list blk) : Prop :=
+    (forall M, last_id st <= M -> (forall y, In y Wd -> b_id y <= M) -> last_id st' <= M)
+    /\ ((last_id st' = last_id st /\ last_hash st' = last_hash st)
+        \/ exists y, In y Wd /\ last_id st' = b_id y /\ last_hash st' = b_hash y).
+
+  Lemma last_from_refl st : last_from st st [].
+  Proof. split; [intros M H _; exact H|left; split; reflexivity]. Qed.
+
+  Lemma last_from_wound st b : last_from st (wound st b) [b].
+  Proof.
+    unfold wound, bc_reorg. cbn [last_id].
+    destruct (N.leb_spec (b_id b) (last_id st)) as [Hle|Hlt]; cbn [last_id last_hash]; split.
+    - intros M HM _. exact HM.
+    - left. split; reflexivity.
+    - intros M _ HM. apply HM. now left.
+    - right. exists b. split; [now left|split; reflexivity].
+  Qed.
+
+  Lemma last_from_trans st st1 st2 W1 W2 :
+    last_from st st1 W1 -> last_from st1 st2 W2 -> last_from st st2 (W1 ++ W2).
+  Proof.
+    intros [A1 A2] [B1 B2]. split.
+    - intros M H HW. apply B1; [apply A1; [exact H|]|]; intros y Hy; apply HW, in_app_iff; auto.
+    - destruct B2 as [[E1 E2]|(y & Hy & E1 & E2)].
+      + destruct A2 as [[F1 F2]|(y & Hy & F1 & F2)].
+        * left. split; congruence.
+        * right. exists y. split; [apply in_app_iff; now left|split; congruence].
+      + right. exists y. split; [apply in_app_iff; now right|auto].
+  Qed.
+
   (* ---------------- unwind_all ---------------- *)
   Lemma unwind_all_ok pre : forall st rest x,
     WInv c U st (pre ++ rest) x -> (rest <> [] \/ pre = []) ->
     exists st', unwind_all c st (hashes pre) = Ok st' /\ WInv c U st' rest x
                 /\ same_store (blocks st) (blocks st') /\ ring_empty st' = ring_empty st
-                /\ last_id st' = last_id st.
+                /\ last_id st' = last_id st /\ last_hash st' = last_hash st.
   Proof.
     induction pre as [|t pre IH]; intros st rest x W Hne; cbn [hashes map unwind_all].
-    - exists st. split; [reflexivity|]. split; [exact W|]. split; [apply same_store_refl|split; reflexivity].
+    - exists st. split; [reflexivity|]. split; [exact W|]. split; [apply same_store_refl|repeat split].
     - destruct Hne as [Hne|]; [|discriminate].
       rewrite (w_lc _ _ _ _ _ W t (or_introl eq_refl)). cbn [s_b].
       assert (exists p rest', pre ++ rest = p :: rest') as (p & rest' & E).
@@ -249,9 +283,9 @@ Section Wind.
       cbn [app] in W. rewrite E in W.
       rewrite (unwind_block_eq _ _ _ _ _ W). cbn [bind].
       pose proof (unwound_inv _ _ _ _ _ W) as W'. rewrite <- E in W'.
-      destruct (IH _ _ _ W' (or_introl Hne)) as (st' & H1 & H2 & H3 & H4 & H5).
+      destruct (IH _ _ _ W' (or_introl Hne)) as (st' & H1 & H2 & H3 & H4 & H5 & H6).
       exists st'. split; [exact H1|]. split; [exact H2|].
-      split; [|split; [rewrite H4; reflexivity|rewrite H5; reflexivity]].
+      split; [|split; [rewrite H4; reflexivity|split; [rewrite H5; reflexivity|rewrite H6; reflexivity]]].
       eapply same_store_trans; [|exact H3]. unfold unwound; cbn [blocks].
       apply (same_store_flag _ _ _ false (w_lc _ _ _ _ _ W t (or_introl eq_refl))).
   Qed.
@@ -265,15 +299,15 @@ Section Wind.
       /\ same_store (blocks st) (blocks st') /\ ring_empty st' = ring_empty st
       /\ last_id st <= last_id st'
       /\ ((forallb b_valid tb = true /\ r = None /\ WInv c U st' (rev tb ++ cur) x
-           /\ (forall y, In y tb -> b_id y <= last_id st'))
+           /\ (forall y, In y tb -> b_id y <= last_id st') /\ last_from st st' tb)
           \/ (exists tb1 bad tb2, tb = tb1 ++ bad :: tb2 /\ forallb b_valid tb1 = true
                 /\ b_valid bad = false /\ r = Some (rev (hashes tb1) ++ wnd)
-                /\ WInv c U st' (rev tb1 ++ cur) x)).
+                /\ WInv c U st' (rev tb1 ++ cur) x /\ last_from st st' tb1)).
   Proof.
     induction tb as [|b tb IH]; intros st cur wnd x W Hst Hl; cbn [hashes map wind_list].
     - exists st, None. split; [reflexivity|]. split; [apply same_store_refl|]. split; [reflexivity|].
       split; [lia|].
-      left. split; [reflexivity|]. split; [reflexivity|]. split; [exact W|intros y []].
+      left. split; [reflexivity|]. split; [reflexivity|]. split; [exact W|]. split; [intros y []|apply last_from_refl].
     - destruct (sget_get _ _ _ (Hst b (or_introl eq_refl))) as (f & G). rewrite G. cbn [s_b].
       destruct (b_valid b) eqn:Hv.
       + rewrite (wind_block_eq _ _ _ G). cbn [bind].
@@ -285,17 +319,21 @@ Section Wind.
         { intros y Hy. rewrite <- S1. apply Hst. now right. }
         exists st', r. split; [exact H1|]. split; [eapply same_store_trans; eauto|]. split; [congruence|].
         split; [lia|].
-        destruct H4 as [(A1 & A2 & A3 & A4)|(tb1 & bad & tb2 & A1 & A2 & A3 & A4 & A5)].
+        pose proof (last_from_wound st b) as LF.
+        destruct H4 as [(A1 & A2 & A3 & A4 & A6)|(tb1 & bad & tb2 & A1 & A2 & A3 & A4 & A5 & A6)].
         * left. cbn [forallb rev]. rewrite Hv, A1, <- app_assoc.
           split; [reflexivity|]. split; [exact A2|]. split; [exact A3|].
-          intros y [<-|Hy]; [lia|auto].
+          split; [intros y [<-|Hy]; [lia|auto]|].
+          apply (last_from_trans _ _ _ [b] tb LF A6).
         * right. exists (b :: tb1), bad, tb2. cbn [forallb rev hashes map app].
           rewrite Hv, A2, <- !app_assoc. cbn [app]. subst tb.
-          split; [reflexivity|]. split; [reflexivity|]. split; [exact A3|]. split; [exact A4|exact A5].
+          split; [reflexivity|]. split; [reflexivity|]. split; [exact A3|]. split; [exact A4|].
+          split; [exact A5|]. apply (last_from_trans _ _ _ [b] tb1 LF A6).
       + exists st, (Some wnd). split; [reflexivity|]. split; [apply same_store_refl|]. split; [reflexivity|].
         split; [lia|].
         right. exists [], b, tb. cbn [app forallb rev hashes map].
-        split; [reflexivity|]. split; [reflexivity|]. split; [exact Hv|]. split; [reflexivity|exact W].
+        split; [reflexivity|]. split; [reflexivity|]. split; [exact Hv|]. split; [reflexivity|].
+        split; [exact W|apply last_from_refl].
   Qed.
 
   (* ---------------- golden-ticket walk reads only the stored blocks ---------------- *)
@@ -331,6 +369,22 @@ Section Wind.
   Lemma chain_ok_forallb_valid l : chain_ok U l -> forallb b_valid l = true.
   Proof. intros Hc. apply forallb_forall. intros y Hy. eapply chain_ok_valid; eauto. Qed.
 
+  (* ---------------- resync_last ---------------- *)
+  Lemma resync_ok st l x : WInv c U st l x ->
+    exists st', resync_last st = Ok st'
+      /\ blocks st' = blocks st /\ ring st' = ring st /\ ring_lc st' = ring_lc st /\ utxo st' = utxo st
+      /\ ring_empty st' = ring_empty st /\ wsteps st' = wsteps st
+      /\ match l with
+         | [] => last_id st' = last_id st /\ last_hash st' = last_hash st
+         | t :: _ => last_id st' = b_id t /\ last_hash st' = b_hash t
+         end.
+  Proof.
+    intros W. unfold resync_last.
+    rewrite (latest_entry_spec c U HU st l (w_store _ _ _ _ _ W) (w_ring _ _ _ _ _ W) (w_chain _ _ _ _ _ W)
+               (w_lc_sget _ _ _ W)).
+    cbn [bind]. destruct l as [|t l']; eexists; (split; [reflexivity|]); cbn; repeat split.
+  Qed.
+
   (* ---------------- validate ---------------- *)
   Lemma validate_ok st b newtl oldb common x :
     WInv c U st (oldb ++ common) x ->
@@ -341,7 +395,10 @@ Section Wind.
       /\ same_store (blocks st) (blocks st') /\ ring_empty st' = ring_empty st
       /\ ok = (gt_count_valid st (b_prev b) (b_gt b) && forallb b_valid (b :: newtl))
       /\ WInv c U st' (if ok then (b :: newtl) ++ common else oldb ++ common) x
-      /\ last_id st <= last_id st' /\ (ok = true -> b_id b <= last_id st').
+      /\ (ok = true -> last_id st < b_id b -> last_id st' = b_id b /\ last_hash st' = b_hash b)
+      /\ (ok = false ->
+            (last_id st' = last_id st /\ last_hash st' = last_hash st)
+            \/ (last_id st' = tip_id (oldb ++ common) /\ last_hash st' = tip_hash (oldb ++ common))).
   Proof.
     intros W Hst Hl Hcm.
     set (newb := b :: newtl) in *.
@@ -354,38 +411,59 @@ Section Wind.
     rewrite <- (gt_count_valid_same st st0 _ _ S0).
     destruct (gt_count_valid st (b_prev b) (b_gt b)) eqn:Egt; cbn [negb andb].
     2:{ exists st0, false. split; [reflexivity|]. split; [exact S0|]. split; [reflexivity|].
-        split; [reflexivity|]. split; [exact W0|]. split; [cbn [st0 set_steps last_id]; lia|discriminate]. }
-    destruct (unwind_all_ok oldb st0 common x W0) as (st1 & E1 & W1 & S1 & R1 & L1).
+        split; [reflexivity|]. split; [exact W0|]. split; [discriminate|].
+        intros _. left. split; reflexivity. }
+    destruct (unwind_all_ok oldb st0 common x W0) as (st1 & E1 & W1 & S1 & R1 & L1 & H1).
     { destruct Hcm as [?|[? _]]; auto. }
-    assert (L0 : last_id st1 = last_id st) by (rewrite L1; reflexivity). clear L1.
+    assert (L0 : last_id st1 = last_id st) by (rewrite L1; reflexivity).
+    assert (H0 : last_hash st1 = last_hash st) by (rewrite H1; reflexivity). clear L1 H1.
     rewrite E1. cbn [bind]. rewrite rev_hashes.
     destruct (wind_list_ok (rev newb) st1 common [] x W1) as (st2 & r & E2 & S2 & R2 & L2 & D2).
     { intros y Hy. rewrite <- S1. apply Hst. now apply in_rev. }
     { now apply linked_dn_up. }
     rewrite E2. cbn [bind].
-    destruct D2 as [(A1 & -> & W2 & Lb)|(tb1 & bad & tb2 & A1 & A2 & A3 & -> & W2)].
+    destruct D2 as [(A1 & -> & W2 & Lb & LF)|(tb1 & bad & tb2 & A1 & A2 & A3 & -> & W2 & LF)].
     - rewrite forallb_rev in A1. rewrite rev_involutive in W2.
       exists (set_steps st2 (Nlen (hashes oldb) + Nlen (hashes newb))), true.
       split; [reflexivity|]. split; [eapply same_store_trans; [exact S1|exact S2]|].
       split; [cbn [set_steps ring_empty]; rewrite R2, R1; reflexivity|]. split; [now rewrite A1|].
       split; [eapply WInv_ext; [..|exact W2]; reflexivity|].
-      cbn [set_steps last_id]. split; [lia|]. intros _. apply Lb. apply -> in_rev. now left.
+      split; [|discriminate]. intros _ Hlt. cbn [set_steps last_id last_hash].
+      assert (Hids : forall y, In y newtl -> b_id y < b_id b).
+      { intros y Hy. apply (chain_id_lt c U b (newtl ++ common) HU (w_chain _ _ _ _ _ W2)).
+        apply in_app_iff. now left. }
+      destruct LF as [LF1 LF2].
+      assert (Hle : last_id st2 <= b_id b).
+      { apply LF1; [lia|]. intros y Hy. apply in_rev in Hy. destruct Hy as [<-|Hy]; [lia|].
+        specialize (Hids y Hy). lia. }
+      assert (Hge : b_id b <= last_id st2) by (apply Lb; apply -> in_rev; now left).
+      destruct LF2 as [[F1 F2]|(y & Hy & F1 & F2)]; [lia|].
+      apply in_rev in Hy. destruct Hy as [<-|Hy]; [auto|]. specialize (Hids y Hy). lia.
     - assert (Hf : forallb b_valid newb = false).
       { rewrite <- forallb_rev, A1. now apply forallb_app_false. }
       rewrite Hf. rewrite app_nil_r, rev_hashes.
-      destruct (unwind_all_ok (rev tb1) st2 common x W2) as (st3 & E3 & W3 & S3 & R3 & L3).
-      { destruct Hcm as [?|[_ Hn]]; [auto|right].
+      assert (Htb1 : common = [] -> tb1 = []).
+      { intros Hc0. destruct Hcm as [?|[_ Hn]]; [contradiction|].
         unfold newb in A1. rewrite Hn in A1. cbn [rev app] in A1.
         destruct tb1 as [|? tb1]; [reflexivity|]. destruct tb1; discriminate. }
+      destruct (unwind_all_ok (rev tb1) st2 common x W2) as (st3 & E3 & W3 & S3 & R3 & L3 & H3).
+      { destruct common; [right; now rewrite Htb1|left; discriminate]. }
       rewrite E3. cbn [bind].
       assert (S03 : same_store (blocks st) (blocks st3)).
       { eapply same_store_trans; [exact S1|]. eapply same_store_trans; [exact S2|exact S3]. }
       destruct oldb as [|o oldb'].
-      + cbn [hashes map].
-        eexists (set_steps st3 _), false. split; [reflexivity|]. split; [exact S03|].
-        split; [cbn [set_steps ring_empty]; rewrite R3, R2, R1; reflexivity|]. split; [reflexivity|].
-        split; [eapply WInv_ext; [..|exact W3]; reflexivity|].
-        cbn [set_steps last_id]. split; [lia|discriminate].
+      + cbn [hashes map app] in *.
+        destruct (resync_ok st3 common x W3) as (st4 & E4 & B1 & B2 & B3 & B4 & B5 & _ & B6).
+        rewrite E4. cbn [bind].
+        eexists (set_steps st4 _), false. split; [reflexivity|].
+        split; [cbn [set_steps blocks]; rewrite B1; exact S03|].
+        split; [cbn [set_steps ring_empty]; rewrite B5, R3, R2, R1; reflexivity|]. split; [reflexivity|].
+        split; [apply (WInv_ext c U st3); auto|].
+        split; [discriminate|]. intros _. cbn [set_steps last_id last_hash].
+        destruct common as [|t l'].
+        * left. rewrite (Htb1 eq_refl) in LF. destruct LF as [_ [[F1 F2]|(y & [] & _)]].
+          destruct B6 as [-> ->]. rewrite L3, H3, F1, F2, L0, H0. split; reflexivity.
+        * right. exact B6.
       + set (oldb := o :: oldb') in *.
         change (hashes oldb) with (b_hash o :: hashes oldb') at 5. cbv iota beta.
         change (b_hash o :: hashes oldb') with (hashes oldb). rewrite rev_hashes.
@@ -398,11 +476,13 @@ Section Wind.
           eapply chain_ok_valid; [apply (w_chain _ _ _ _ _ W)|]. apply in_app_iff. now left. }
         destruct D4 as [(B1 & -> & W4 & _)|(tc1 & bad' & tc2 & B1 & B2 & B3 & _)].
         * rewrite rev_involutive in W4.
-          eexists (set_steps st4 _), false. split; [reflexivity|].
-          split; [eapply same_store_trans; [exact S03|exact S4]|].
-          split; [cbn [set_steps ring_empty]; rewrite R4, R3, R2, R1; reflexivity|]. split; [reflexivity|].
-          split; [eapply WInv_ext; [..|exact W4]; reflexivity|].
-          cbn [set_steps last_id]. split; [lia|discriminate].
+          destruct (resync_ok st4 (oldb ++ common) x W4) as (st5 & E5 & C1 & C2 & C3 & C4 & C5 & _ & C6).
+          rewrite E5. cbn [bind].
+          eexists (set_steps st5 _), false. split; [reflexivity|].
+          split; [cbn [set_steps blocks]; rewrite C1; eapply same_store_trans; [exact S03|exact S4]|].
+          split; [cbn [set_steps ring_empty]; rewrite C5, R4, R3, R2, R1; reflexivity|]. split; [reflexivity|].
+          split; [apply (WInv_ext c U st4); auto|].
+          split; [discriminate|]. intros _. right. exact C6.
         * exfalso. rewrite B1 in Hvo. rewrite (forallb_app_false _ _ _ _ B3) in Hvo. discriminate.
   Qed.
 End Wind.
@@ -419,6 +499,12 @@ Proof.
   - intros [= _ <-]. cbn [length]. lia.
 Qed.
 
+Lemma wsteps_resync st st' : resync_last st = Ok st' -> wsteps st' = wsteps st.
+Proof.
+  unfold resync_last. destruct (latest_entry st) as [[[h id]|]| |]; cbn [bind]; try discriminate;
+    now intros [= <-].
+Qed.
+
 Lemma validate_steps c st new old st' ok :
   validate c st new old = Ok (st', ok) -> wsteps st' <= 2 * (Nlen new + Nlen old).
 Proof.
@@ -433,10 +519,12 @@ Proof.
   apply wind_list_wound in E2. rewrite rev_length in E2. cbn [length] in E2.
   destruct (unwind_all c st2 wound) as [st3| |]; cbn [bind]; try discriminate.
   destruct old as [|o old'].
-  { intros [= <- _]. cbn [set_steps wsteps]. unfold Nlen in *. cbn [length]. lia. }
+  { destruct (resync_last st3) as [st4| |]; cbn [bind]; try discriminate.
+    intros [= <- _]. cbn [set_steps wsteps]. unfold Nlen in *. cbn [length]. lia. }
   set (old := o :: old') in *.
   destruct (wind_list c st3 (rev old) []) as [[st4 r4]| |] eqn:E4; cbn [bind]; try discriminate.
-  intros [= <- _]. cbn [set_steps wsteps fst snd].
+  cbn [fst snd]. destruct (resync_last st4) as [st5| |]; cbn [bind]; try discriminate.
+  intros [= <- _]. cbn [set_steps wsteps].
   assert (attempts old r4 <= Nlen old).
   { destruct r4 as [w4|]; cbn [attempts]; [|lia].
     apply wind_list_wound in E4. rewrite rev_length in E4. cbn [length] in E4. unfold Nlen. lia. }
